@@ -11,23 +11,50 @@ open Mutagen
 /-! ## ASF: `[Header Object (children …)][rest]` -/
 
 /-- ASF save on a well-formed layout, with tags that distribute to `d` and render to the payloads `P`
-(any padding choice): the saved file is the layout `L'` whose foreign objects — every child of the
-Header Object and of the Header Extension Object that is not one of the four metadata objects or
-padding — are those of the old file, byte for byte and in order, and everything behind the Header
-Object (Data Object, index objects) follows the new header unchanged -/
+(any padding choice, a new file that fits the size fields): the saved file is the layout `L'` whose
+foreign objects — every child of the Header Object and of the Header Extension Object that is not
+one of the four metadata objects or padding — are those of the old file, in order and byte for byte
+EXCEPT the eight File Size bytes (payload bytes 16..24) of the first File Properties Object among
+the children of the Header Object, which hold the length of the new file (`L.patched t`: see
+`asf_file_size_patch_only`); everything behind the Header Object (Data Object, index objects)
+follows the new header unchanged -/
 theorem asf_save_preserves_foreign (L : Asf.Layout) (h : L.OK) (tags : List Asf.Tag) (d : Asf.Dist)
     (hd : Asf.distribute tags = .ok d) (P : Asf.Payloads) (hP : Asf.Renders d P) (pad : PadChoice)
-    (hfit : Asf.ExtFits (Asf.keptTop P L.top)) :
-    ∃ L' : Asf.Layout, Asf.save L.render tags pad = .ok L'.render ∧ L'.foreign = L.foreign ∧ L'.rest = L.rest ∧
-      L'.render.drop L'.headerLen = L.rest :=
-  ⟨L.after P (Asf.newPadding L P pad), (Asf.save_layout L h tags d hd P hP pad hfit).2, Asf.after_foreign L h P _, rfl,
-    Asf.Layout.drop_render _⟩
+    (hf : L.Fits P (Asf.newPadding L P pad)) :
+    ∃ L' : Asf.Layout, Asf.save L.render tags pad = .ok L'.render ∧ L'.foreign = (L.patched L'.render.length).foreign ∧
+      L'.rest = L.rest ∧ L'.render.drop L'.headerLen = L.rest := by
+  refine ⟨L.after P (Asf.newPadding L P pad), (Asf.save_layout L h tags d hd P hP pad hf).2, ?_, rfl, Asf.Layout.drop_render _⟩
+  rw [Asf.after_render_length L h]
+  exact Asf.after_foreign L h P _
 
-/-- ASF delete keeps every foreign object and everything behind the header -/
-theorem asf_delete_preserves_foreign (L : Asf.Layout) (h : L.OK) (hfit : Asf.ExtFits (Asf.keptTop Asf.emptyPayloads L.top)) :
-    ∃ L' : Asf.Layout, Asf.delete L.render = .ok L'.render ∧ L'.foreign = L.foreign ∧ L'.rest = L.rest ∧
-      L'.render.drop L'.headerLen = L.rest :=
-  ⟨L.after Asf.emptyPayloads 0, Asf.delete_layout L h hfit, Asf.after_foreign L h _ _, rfl, Asf.Layout.drop_render _⟩
+/-- ASF delete keeps every foreign object (but for the File Size field) and everything behind the header -/
+theorem asf_delete_preserves_foreign (L : Asf.Layout) (h : L.OK) (hf : L.Fits Asf.emptyPayloads 0) :
+    ∃ L' : Asf.Layout, Asf.delete L.render = .ok L'.render ∧ L'.foreign = (L.patched L'.render.length).foreign ∧
+      L'.rest = L.rest ∧ L'.render.drop L'.headerLen = L.rest := by
+  refine ⟨L.after Asf.emptyPayloads 0, Asf.delete_layout L h hf, ?_, rfl, Asf.Layout.drop_render _⟩
+  rw [Asf.after_render_length L h]
+  exact Asf.after_foreign L h _ _
+
+/-- what `L.patched t` is: without a File Properties Object among the children of the Header Object
+nothing changes; otherwise the first one gets payload bytes 16..24 replaced by `t` (little-endian)
+and nothing else changes — same children, same order, same lengths -/
+theorem asf_file_size_patch_only (L : Asf.Layout) (h : L.OK) (t : Nat) :
+    (L.top.any Asf.Item.isFP = false ∧ L.patched t = L) ∨
+      ∃ pre o post, L.top = pre ++ Asf.Item.foreign o :: post ∧ o.guid = Asf.gFileProps ∧ (∀ i ∈ pre, i.isFP = false) ∧
+        (L.patched t).top = pre ++ Asf.Item.foreign ⟨o.guid, o.data.take 16 ++ toLE 8 t ++ o.data.drop 24⟩ :: post ∧
+        (L.patched t).rest = L.rest := by
+  rcases Asf.patchFP_spec t L.top (Asf.FPok_of_OKf _ h.okf) with ⟨h1, h2⟩ | ⟨pre, o, post, h1, h2, h3, h4⟩
+  · exact Or.inl ⟨h1, by simp only [Asf.Layout.patched, h2]⟩
+  · exact Or.inr ⟨pre, o, post, h1, h2, h3, h4, rfl⟩
+
+/-- a header without a File Properties Object among its children: every foreign object stays
+byte-identical -/
+theorem asf_save_preserves_foreign_no_file_properties (L : Asf.Layout) (h : L.OK) (tags : List Asf.Tag) (d : Asf.Dist)
+    (hd : Asf.distribute tags = .ok d) (P : Asf.Payloads) (hP : Asf.Renders d P) (pad : PadChoice)
+    (hf : L.Fits P (Asf.newPadding L P pad)) (hno : L.top.any Asf.Item.isFP = false) :
+    ∃ L' : Asf.Layout, Asf.save L.render tags pad = .ok L'.render ∧ L'.foreign = L.foreign ∧ L'.rest = L.rest := by
+  obtain ⟨L', h1, h2, h3, _⟩ := asf_save_preserves_foreign L h tags d hd P hP pad hf
+  exact ⟨L', h1, by rw [h2, Asf.patched_none L _ hno], h3⟩
 
 /-- loading a well-formed layout builds exactly its object tree: every foreign child is kept as its
 raw bytes (GUID + payload), in order -/
@@ -76,7 +103,8 @@ theorem asf_distribute_eq (tags : List Asf.Tag) (d : Asf.Dist) (h : Asf.distribu
 /-- the hypotheses are satisfiable: a header with File Properties, Content Description, padding and a
 Header Extension (foreign object, Metadata Object, padding), four tags that go to the four objects -/
 example : Asf.exLayout.OK ∧ Asf.distribute Asf.exTags = .ok Asf.exDist ∧ Asf.Renders Asf.exDist Asf.exPayloads ∧
-    Asf.ExtFits (Asf.keptTop Asf.exPayloads Asf.exLayout.top) ∧ Asf.ExtFits (Asf.keptTop Asf.emptyPayloads Asf.exLayout.top) := by
+    Asf.exLayout.Fits Asf.exPayloads (Asf.newPadding Asf.exLayout Asf.exPayloads .default) ∧
+    Asf.exLayout.Fits Asf.emptyPayloads 0 := by
   refine ⟨by decide +kernel, by decide +kernel, by decide +kernel, by decide +kernel, by decide +kernel⟩
 
 end Mutagen.C02
